@@ -7,8 +7,10 @@ pub mod tape;
 
 pub mod common;
 pub mod objs;
+pub mod p01_accessors;
 pub mod p02_queries;
 pub mod p03_flat;
+pub mod p04_container;
 pub mod p19_address;
 pub mod p20_endian;
 
@@ -16,8 +18,10 @@ use engine::Property;
 
 pub fn properties() -> Vec<Property> {
     vec![
+        p01_accessors::property(),
         p02_queries::property(),
         p03_flat::property(),
+        p04_container::property(),
         p19_address::property(),
         p20_endian::property(),
     ]
